@@ -14,6 +14,7 @@
 import CxxModel.Theorems.Fault
 import CxxModel.Theorems.Nest
 import CxxModel.Parser.Decl
+import CxxModel.Theorems.FoldCount
 namespace Cxx
 
 /-- the world after `on_parse_start` satisfies the nesting invariant -/
@@ -110,5 +111,13 @@ example :
       { kind := k, stateId := id, stateKind := .ns, parentId := par, loc := default, access := none, hdr := default }
     track [s 0 .parseStart none, s 1 .blockStart (some 0), s 2 .blockStart (some 1), s 2 .blockEnd (some 1)] = some [1, 0] := by
   decide
+
+
+/-- the fold stores each payload exactly once: after any stream that folds without error, the
+    number of stored objects is the number of item callbacks -/
+theorem C04_each_payload_stored_once (evs : List Event) (i : Nat) (fs fs' : FoldState)
+    (hn : noParseStart evs = true) (h : foldEvents evs i fs = .ok fs') :
+    fs'.total = fs.total + itemCount evs :=
+  foldEvents_total evs i fs fs' hn h
 
 end Cxx
